@@ -496,6 +496,7 @@ def copyBackOne (c : Ctx) (e : Expr) (av : Val) : Bool × Ctx :=
     -- HAWK_NDE_POS: the position expression is evaluated first; after `exit` that evaluation
     -- is abandoned with the error number cleared and nothing is copied
     if xlGlobal ≤ c.exitLevel then (true, c.setErr .enoerr)
+    else if c.rec0 = av then (true, c)     -- the parameter still holds the very value of `$0`: no write-back (2aed04c)
     else
       match c.heap.data? av with
       | some (.map _) => (false, c.setErr .enonscatopos)           -- a map cannot go into a positional
